@@ -4,27 +4,69 @@
 //! (or `serve_with_incoming` in mode `n`) over in-memory `tokio::io::duplex` connections, with real
 //! tonic clients (`Endpoint::connect_with_connector`), on a current-thread runtime with paused time.
 //!
+//! Mode `t` / `u` run the same scripts over LOOPBACK TCP through the TCP entry points
+//! `Router::serve_with_shutdown(addr, signal)` / `Router::serve(addr)` (`TcpIncoming::bind` inside
+//! tonic), with clients connecting real `tokio::net::TcpStream`s; see "TCP variant" below.
+//!
+//! Mode `gs` is mode `g` with a TLS acceptor on the server (`Server::tls_config`, test PKI of
+//! harness/certs): every offered connection first goes through `ServerIoStream`'s handshake
+//! `JoinSet` (io_stream.rs); clients are tonic channels with a `ClientTlsConfig` over the duplex
+//! pipe, plus clients that connect without speaking (`H`, continued by `h<c>`) or that send
+//! something that is not TLS (`Hb`).
+//!
 //! Case grammar (space separated):
-//!   sc[:<generator stream label, not interpreted>] <g|n> b<duplex buffer> p<payload bytes>
+//!   sc[:<generator stream label, not interpreted>] <g|n|t|u|gs> b<duplex buffer> p<payload bytes>
 //!      a<0|1 max_connection_age configured> <step>*
-//!      (g = serve_with_incoming_shutdown, n = serve_with_incoming; requests and response messages
-//!       are p bytes; the duplex buffer size sets the transport fragmentation)
+//!      (g = serve_with_incoming_shutdown, n = serve_with_incoming, both over in-memory duplex pipes;
+//!       t = serve_with_shutdown(addr, signal), u = serve(addr), both over loopback TCP;
+//!       requests and response messages are p bytes; the duplex buffer size sets the transport
+//!       fragmentation (ignored over TCP))
 //!   step (optionally suffixed `~<k>`: only k scheduler yields follow instead of a full settle):
 //!     C            offer a connection (index = order of offering) and connect a client over it
+//!     H            (gs) offer a connection whose client does not say anything yet
+//!     h<c>         (gs) the silent client of connection c starts its TLS handshake and connects
+//!     Hb           (gs) offer a connection whose client sends a plain HTTP request instead of TLS
 //!     U<c>:<s>     start a unary call on connection c; handler will answer status s (0 = OK + message)
 //!     S<c>:<n>:<s> start a server-streaming call: headers, n messages, then status s
+//!     Q<c>:<m>:<s> start a client-streaming call: the client will send m request messages (one per
+//!                  `M` step, the last one half-closes; m = 0: half-closed at once); the handler reads
+//!                  the request stream to its end, then (one phase) answers like a unary one
+//!     B<c>:<m>:<n>:<s> start a bidi call: m request messages as for Q; the handler sends headers, n
+//!                  messages (one phase each), then - last phase - reads the request stream to its
+//!                  end and sends status s
+//!     M<k>         the client of call k sends its next request message
 //!     A<k>         let the handler of call k advance one phase
 //!     G            fire the shutdown signal
 //!     E            end the incoming stream
 //!     Ir | Io      the incoming stream yields an accept error (recoverable kind / other kind)
 //!     D<c>         the client drops connection c (and abandons its calls)
 //!     X<k>         the client abandons call k
-//!     T            virtual time passes max_connection_age
-//!   D, X and T must follow and be quiescent steps.
-//!   After the script: all handlers free-run (drain), quiescent point, then every client is dropped.
+//!     W<secs>      virtual time passes: the script sleeps <secs> seconds of (paused) tokio time.
+//!                  Usable anywhere, with or without max_connection_age configured: whatever in
+//!                  the server depends on the clock gets its chance to fire
+//!     T            = W3600 (virtual time passes max_connection_age)
+//!   D, X, W and T must follow and be quiescent steps.
+//!   After the script: every client completes its request stream and all handlers free-run (drain),
+//!   quiescent point, then every client is dropped.
 //!
 //! Time = number of quiescent points passed (a quiescent point = the paused-clock runtime went idle:
 //! `sleep(1ms)` only returns once no task is runnable).  Steps joined by `~k` share one instant.
+//!
+//! TCP variant.  The server binds 127.0.0.1:<free port> itself; nothing on the server side can be
+//! wrapped, so a connection is observed from its client end: `accepted` = the client received bytes
+//! from the server (the server's SETTINGS; a connection left in the listen backlog never gets any),
+//! `closed` = the client read EOF / an error, or dropped its end.  The clock is still tokio's paused
+//! clock (time steps work), but "the runtime went idle" is not by itself a quiescent point when the
+//! kernel sits between the two ends.  So after every step the script driver waits for explicit
+//! synchronisation points, all of them POSITIVE events that the step must cause if the server
+//! behaves: the handler of a call issued on a live connection reported it started; the client
+//! received the items a released handler phase produces; after the signal each live connection's
+//! client read the final GOAWAY (the client end parses HTTP/2 frame headers for this), a connection
+//! with no unfinished call read EOF, and with no connection left the serve future resolved.  A
+//! wait that is not satisfied within a bound (only possible when the server misbehaves) is given
+//! up and the observation is reported as it is.  Only quiescent steps, no `E`/`I` (a TcpIncoming
+//! cannot be ended or made to fail from outside).  The open-connection count at the instant of
+//! resolution is not observable from the client ends and reported as `*`.
 //!
 //! Observed (times; `-` = never):
 //!   R<resolvedAt>:<open server IOs at that instant (`*` in mode n)>:<ok|err>
@@ -53,15 +95,21 @@ use tonic::{Request, Response, Status};
 #[derive(Clone, Debug, PartialEq)]
 enum Op {
     Conn,
+    ConnStalled,
+    ConnBad,
+    Hello(usize),
     Unary(usize, i32),
     Stream(usize, usize, i32),
+    CStream(usize, usize, i32),
+    Bidi(usize, usize, usize, i32),
+    ReqMsg(usize),
     Adv(usize),
     Sig,
     EndIncoming,
     AcceptErr(bool),
     DropConn(usize),
     Cancel(usize),
-    Age,
+    Wait(u64),
 }
 
 #[derive(Clone, Debug)]
@@ -70,8 +118,16 @@ struct Step {
     yields: Option<usize>,
 }
 
+#[derive(Clone, Copy, PartialEq, Debug)]
+enum Transport {
+    Duplex,
+    Tcp,
+}
+
 struct Script {
     graceful: bool,
+    transport: Transport,
+    tls: bool,
     buf: usize,
     payload: usize,
     age: bool,
@@ -83,9 +139,12 @@ fn parse(case: &str) -> Option<Script> {
     if t.len() < 5 || !t[0].starts_with("sc") {
         return None;
     }
-    let graceful = match t[1] {
-        "g" => true,
-        "n" => false,
+    let (graceful, transport, tls) = match t[1] {
+        "g" => (true, Transport::Duplex, false),
+        "n" => (false, Transport::Duplex, false),
+        "t" => (true, Transport::Tcp, false),
+        "u" => (false, Transport::Tcp, false),
+        "gs" => (true, Transport::Duplex, true),
         _ => return None,
     };
     let buf: usize = t[2].strip_prefix('b')?.parse().ok()?;
@@ -109,6 +168,21 @@ fn parse(case: &str) -> Option<Script> {
                 nconn += 1;
                 Op::Conn
             }
+            ("H", []) if tls => {
+                nconn += 1;
+                Op::ConnStalled
+            }
+            ("H", ["b"]) if tls => {
+                nconn += 1;
+                Op::ConnBad
+            }
+            ("h", [c]) if tls => {
+                let c: usize = c.parse().ok()?;
+                if c >= nconn {
+                    return None;
+                }
+                Op::Hello(c)
+            }
             ("U", [c, s]) => {
                 let c: usize = c.parse().ok()?;
                 if c >= nconn {
@@ -124,6 +198,31 @@ fn parse(case: &str) -> Option<Script> {
                 }
                 ncall += 1;
                 Op::Stream(c, n.parse().ok()?, s.parse().ok()?)
+            }
+            ("Q", [c, m, s]) => {
+                let c: usize = c.parse().ok()?;
+                let m: usize = m.parse().ok()?;
+                if c >= nconn || m > 64 {
+                    return None;
+                }
+                ncall += 1;
+                Op::CStream(c, m, s.parse().ok()?)
+            }
+            ("B", [c, m, n, s]) => {
+                let c: usize = c.parse().ok()?;
+                let m: usize = m.parse().ok()?;
+                if c >= nconn || m > 64 {
+                    return None;
+                }
+                ncall += 1;
+                Op::Bidi(c, m, n.parse().ok()?, s.parse().ok()?)
+            }
+            ("M", [k]) => {
+                let k: usize = k.parse().ok()?;
+                if k >= ncall {
+                    return None;
+                }
+                Op::ReqMsg(k)
             }
             ("A", [k]) => {
                 let k: usize = k.parse().ok()?;
@@ -150,18 +249,28 @@ fn parse(case: &str) -> Option<Script> {
                 }
                 Op::Cancel(k)
             }
-            ("T", []) => Op::Age,
+            ("T", []) => Op::Wait(AGE.as_secs()),
+            ("W", [d]) => {
+                let d: u64 = d.parse().ok()?;
+                if d > 100_000 {
+                    return None;
+                }
+                Op::Wait(d)
+            }
             _ => return None,
         };
-        if matches!(op, Op::DropConn(_) | Op::Cancel(_) | Op::Age) {
+        if matches!(op, Op::DropConn(_) | Op::Cancel(_) | Op::Wait(_)) {
             // these are only meaningful from a quiescent state
             if yields.is_some() || steps.last().map(|p: &Step| p.yields.is_some()).unwrap_or(false) {
                 return None;
             }
         }
+        if transport == Transport::Tcp && (yields.is_some() || matches!(op, Op::EndIncoming | Op::AcceptErr(_))) {
+            return None;
+        }
         steps.push(Step { op, yields });
     }
-    Some(Script { graceful, buf, payload, age, steps })
+    Some(Script { graceful, transport, tls, buf, payload, age, steps })
 }
 
 // ---------------------------------------------------------------- shared observation state
@@ -170,12 +279,25 @@ fn parse(case: &str) -> Option<Script> {
 struct ConnRec {
     accepted: bool,
     closed_at: Option<usize>,
+    /// TCP variant, seen by the client end: the server acknowledged the client's SETTINGS (its
+    /// HTTP/2 handshake is complete); the server's final GOAWAY (last-stream-id < 2^31-1) arrived
+    hs_ack: bool,
+    final_goaway: bool,
+}
+
+#[derive(Clone, Copy, PartialEq, Debug)]
+enum Kind {
+    Unary,
+    SStream,
+    CStream,
+    Bidi,
 }
 
 struct CallRec {
     n: usize, // messages the handler intends to send (unary: 1 if status 0 else 0)
+    m: usize, // request messages the client is going to send (client-streaming and bidi)
     status: i32,
-    streaming: bool,
+    kind: Kind,
     gate: Arc<Semaphore>,
     started: bool,
     hdr: Option<bool>, // Some(true) good, Some(false) bad
@@ -196,6 +318,11 @@ struct Shared {
 }
 
 type Sh = Arc<Mutex<Shared>>;
+
+/// j-th request message of a client-streaming / bidi call
+fn req_message(k: usize, j: usize, len: usize) -> Vec<u8> {
+    message(k + 7919, j + 3, len)
+}
 
 fn message(k: usize, j: usize, len: usize) -> Vec<u8> {
     (0..len).map(|i| (k.wrapping_mul(31) + j.wrapping_mul(7) + i.wrapping_mul(13) + 1) as u8).collect()
@@ -261,6 +388,267 @@ impl futures_core::Stream for Incoming {
     }
 }
 
+// ---------------------------------------------------------------- TCP variant: client-side IO wrapper
+
+/// The client end of a loopback TCP connection.  It watches what the server sends (only HTTP/2
+/// frame headers are looked at) and when the connection ends.
+struct CliIo {
+    inner: tokio::net::TcpStream,
+    id: usize,
+    sh: Sh,
+    pending: Vec<u8>,
+}
+
+impl CliIo {
+    fn ended(&self) {
+        let mut g = self.sh.lock().unwrap();
+        let st = g.step;
+        if g.conns[self.id].closed_at.is_none() {
+            g.conns[self.id].closed_at = Some(st);
+        }
+    }
+    fn received(&mut self, bytes: &[u8]) {
+        self.pending.extend_from_slice(bytes);
+        let mut g = self.sh.lock().unwrap();
+        g.conns[self.id].accepted = true;
+        loop {
+            if self.pending.len() < 9 {
+                break;
+            }
+            let len = ((self.pending[0] as usize) << 16) | ((self.pending[1] as usize) << 8) | self.pending[2] as usize;
+            if self.pending.len() < 9 + len {
+                break;
+            }
+            let (ty, flags) = (self.pending[3], self.pending[4]);
+            if ty == 4 && flags & 1 == 1 {
+                g.conns[self.id].hs_ack = true;
+            }
+            if ty == 7 && len >= 8 {
+                let last = u32::from_be_bytes([self.pending[9], self.pending[10], self.pending[11], self.pending[12]]) & 0x7fff_ffff;
+                if last != 0x7fff_ffff {
+                    g.conns[self.id].final_goaway = true;
+                }
+            }
+            self.pending.drain(..9 + len);
+        }
+    }
+}
+
+impl Drop for CliIo {
+    fn drop(&mut self) {
+        self.ended();
+    }
+}
+
+impl AsyncRead for CliIo {
+    fn poll_read(mut self: Pin<&mut Self>, cx: &mut Context<'_>, buf: &mut ReadBuf<'_>) -> Poll<std::io::Result<()>> {
+        let before = buf.filled().len();
+        match Pin::new(&mut self.inner).poll_read(cx, buf) {
+            Poll::Ready(Ok(())) => {
+                if buf.filled().len() == before {
+                    if buf.remaining() > 0 {
+                        self.ended();
+                    }
+                } else {
+                    let new = buf.filled()[before..].to_vec();
+                    self.received(&new);
+                }
+                Poll::Ready(Ok(()))
+            }
+            Poll::Ready(Err(e)) => {
+                self.ended();
+                Poll::Ready(Err(e))
+            }
+            Poll::Pending => Poll::Pending,
+        }
+    }
+}
+
+impl AsyncWrite for CliIo {
+    fn poll_write(mut self: Pin<&mut Self>, cx: &mut Context<'_>, buf: &[u8]) -> Poll<std::io::Result<usize>> {
+        Pin::new(&mut self.inner).poll_write(cx, buf)
+    }
+    fn poll_flush(mut self: Pin<&mut Self>, cx: &mut Context<'_>) -> Poll<std::io::Result<()>> {
+        Pin::new(&mut self.inner).poll_flush(cx)
+    }
+    fn poll_shutdown(mut self: Pin<&mut Self>, cx: &mut Context<'_>) -> Poll<std::io::Result<()>> {
+        Pin::new(&mut self.inner).poll_shutdown(cx)
+    }
+}
+
+// ---------------------------------------------------------------- TCP variant: what to wait for
+
+/// What each script step must cause if the server behaves (TCP variant only).  This is NOT used to
+/// produce the observation - only to know which events to wait for before the next step; a wait
+/// that is not satisfied in time is abandoned and the observation reported as it stands.
+#[derive(Default)]
+struct Expect {
+    graceful_mode: bool,
+    age: bool,
+    sig: bool,
+    now: u64,
+    conns: Vec<ExpConn>,
+    calls: Vec<ExpCall>,
+    gave_up: bool,
+}
+
+struct ExpConn {
+    /// offered while the accept loop was running: the server takes it
+    accept: bool,
+    acc_at: u64,
+    aged: bool,
+    dropped: bool,
+}
+
+struct ExpCall {
+    conn: usize,
+    /// issued on a live connection that had not been told to shut down: the handler starts
+    start: bool,
+    kind: Kind,
+    n: usize,
+    phases: usize,
+    permits: usize,
+    req_left: usize,
+    cancelled: bool,
+}
+
+impl Expect {
+    fn conn_graceful(&self, c: usize) -> bool {
+        (self.graceful_mode && self.sig) || self.conns[c].aged
+    }
+    fn live(&self, k: usize) -> bool {
+        let c = &self.calls[k];
+        c.start && !c.cancelled && !self.conns[c.conn].dropped
+    }
+    /// handler phases of call k that must have run by now
+    fn produced(&self, k: usize) -> usize {
+        let c = &self.calls[k];
+        let p = c.permits.min(c.phases);
+        if p == c.phases && c.req_left > 0 {
+            c.phases - 1
+        } else {
+            p
+        }
+    }
+    fn conn_closes(&self, c: usize) -> bool {
+        self.conns[c].accept
+            && !self.conns[c].dropped
+            && self.conn_graceful(c)
+            && (0..self.calls.len()).all(|k| self.calls[k].conn != c || !self.live(k) || self.produced(k) == self.calls[k].phases)
+    }
+    fn resolves(&self) -> bool {
+        self.graceful_mode && self.sig && (0..self.conns.len()).all(|c| !self.conns[c].accept || self.conns[c].dropped || self.conn_closes(c))
+    }
+    fn wait_passes(&mut self, secs: u64) {
+        self.now += secs;
+        if self.age {
+            for c in self.conns.iter_mut() {
+                if c.accept && self.now - c.acc_at >= AGE.as_secs() {
+                    c.aged = true;
+                }
+            }
+        }
+    }
+    fn satisfied(&self, g: &Shared) -> bool {
+        for (c, e) in self.conns.iter().enumerate() {
+            let r = &g.conns[c];
+            if e.accept && !e.dropped {
+                if r.closed_at.is_none() && !(r.accepted && r.hs_ack) {
+                    return false;
+                }
+                if self.conn_graceful(c) && !(r.final_goaway || r.closed_at.is_some()) {
+                    return false;
+                }
+                if self.conn_closes(c) && r.closed_at.is_none() {
+                    return false;
+                }
+            }
+        }
+        for (k, e) in self.calls.iter().enumerate() {
+            if !self.live(k) {
+                continue;
+            }
+            let r = &g.calls[k];
+            if !r.started {
+                return false;
+            }
+            let p = self.produced(k);
+            let done = r.done_at.is_some();
+            match e.kind {
+                Kind::Unary | Kind::CStream => {
+                    if p >= 1 && !done {
+                        return false;
+                    }
+                }
+                Kind::SStream | Kind::Bidi => {
+                    if p >= 1 && r.hdr.is_none() && !done {
+                        return false;
+                    }
+                    if p >= 1 && !done && !r.bad && r.msgs < (p - 1).min(e.n) {
+                        return false;
+                    }
+                    if p == e.phases && !done {
+                        return false;
+                    }
+                }
+            }
+        }
+        if self.resolves() && g.resolved.is_none() {
+            return false;
+        }
+        true
+    }
+}
+
+/// TCP variant: the quiescent point after a step.  `settle()` lets every task in this runtime run
+/// until none is runnable (which on loopback is normally all there is to wait for); then the
+/// explicit synchronisation points; then once more to idle.
+async fn tcp_sync(sh: &Sh, exp: &mut Expect) {
+    let t0 = std::time::Instant::now();
+    let mut rounds = 0u32;
+    // once a wait has been given up the server is off the script anyway: later waits are short
+    let (max_rounds, max_ms) = if exp.gave_up { (100, 30) } else { (2500, 1000) };
+    loop {
+        settle().await;
+        if exp.satisfied(&sh.lock().unwrap()) {
+            break;
+        }
+        rounds += 1;
+        if rounds > max_rounds && t0.elapsed() > Duration::from_millis(max_ms) {
+            if std::env::var_os("VERIF_C13_TRACE").is_some() {
+                eprintln!("c13: tcp wait abandoned at step {}", sh.lock().unwrap().step);
+            }
+            exp.gave_up = true;
+            break;
+        }
+        // give the kernel real time to move bytes between the two ends
+        std::thread::sleep(Duration::from_micros(200));
+    }
+    settle().await;
+}
+
+/// Await something that completes by real IO under the paused clock.  tokio advances a paused
+/// clock to the next timer whenever no task is runnable - also when the only thing everybody waits
+/// for is the kernel - so without a near timer of our own the clock would leap to whatever timer is
+/// next (a connection's max_connection_age, the watchdog).  A 1 ms tick keeps the leaps at 1 ms.
+async fn with_ticks<F: Future>(fut: F) -> F::Output {
+    let mut fut = std::pin::pin!(fut);
+    loop {
+        tokio::select! {
+            biased;
+            r = &mut fut => return r,
+            _ = tokio::time::sleep(Duration::from_millis(1)) => {
+                std::thread::sleep(Duration::from_micros(50));
+            }
+        }
+    }
+}
+
+fn free_port() -> Option<u16> {
+    let l = std::net::TcpListener::bind("127.0.0.1:0").ok()?;
+    l.local_addr().ok().map(|a| a.port())
+}
+
 // ---------------------------------------------------------------- byte codec
 
 #[derive(Clone, Copy, Default)]
@@ -320,10 +708,20 @@ impl tonic::server::NamedService for GateSvc {
 
 type BoxFut<T> = Pin<Box<dyn Future<Output = T> + Send + 'static>>;
 
-fn call_id(req: &[u8]) -> usize {
+/// the call index a unary / server-streaming request carries; `None` for a request that is not
+/// one of this scenario's (over TCP a stray client of something else could reach the port)
+fn call_id(sh: &Sh, req: &[u8]) -> Option<usize> {
+    if req.len() < 4 {
+        return None;
+    }
     let mut b = [0u8; 4];
     b.copy_from_slice(&req[..4]);
-    u32::from_be_bytes(b) as usize
+    let k = u32::from_be_bytes(b) as usize;
+    if k < sh.lock().unwrap().calls.len() {
+        Some(k)
+    } else {
+        None
+    }
 }
 
 fn status_of(k: usize, code: i32) -> Status {
@@ -337,7 +735,10 @@ impl tonic::server::UnaryService<Vec<u8>> for UnarySvc {
     fn call(&mut self, request: Request<Vec<u8>>) -> Self::Future {
         let sh = self.0.clone();
         Box::pin(async move {
-            let k = call_id(request.get_ref());
+            let k = match call_id(&sh, request.get_ref()) {
+                Some(k) => k,
+                None => return Err(Status::internal("nok")),
+            };
             let (gate, status, payload) = {
                 let mut g = sh.lock().unwrap();
                 g.calls[k].started = true;
@@ -362,8 +763,33 @@ struct GatedStream {
     status: i32,
     payload: usize,
     done: bool,
-    wait: Option<BoxFut<()>>,
+    wait: Option<BoxFut<bool>>,
     gate: Arc<Semaphore>,
+    /// bidi: the request stream (read to its end in the last phase) and the expected count
+    req: Option<(tonic::Streaming<Vec<u8>>, usize)>,
+}
+
+fn meta_k<T>(req: &Request<T>) -> Option<usize> {
+    req.metadata().get("x-k")?.to_str().ok()?.parse().ok()
+}
+
+/// read a request stream to its end; true iff exactly the m expected messages came, in order
+async fn drain_requests(mut s: tonic::Streaming<Vec<u8>>, k: usize, m: usize, payload: usize) -> bool {
+    let mut count = 0usize;
+    let mut good = true;
+    loop {
+        match s.message().await {
+            Ok(Some(b)) => {
+                if b != req_message(k, count, payload) {
+                    good = false;
+                }
+                count += 1;
+            }
+            Ok(None) => break,
+            Err(_) => return false,
+        }
+    }
+    good && count == m
 }
 
 impl futures_core::Stream for GatedStream {
@@ -374,14 +800,25 @@ impl futures_core::Stream for GatedStream {
         }
         if self.wait.is_none() {
             let gate = self.gate.clone();
+            let last = self.j >= self.n;
+            let req = if last { self.req.take() } else { None };
+            let (k, payload) = (self.k, self.payload);
             self.wait = Some(Box::pin(async move {
                 gate.acquire().await.unwrap().forget();
+                match req {
+                    Some((s, m)) => drain_requests(s, k, m, payload).await,
+                    None => true,
+                }
             }));
         }
         match self.wait.as_mut().unwrap().as_mut().poll(cx) {
             Poll::Pending => Poll::Pending,
-            Poll::Ready(()) => {
+            Poll::Ready(req_ok) => {
                 self.wait = None;
+                if !req_ok {
+                    self.done = true;
+                    return Poll::Ready(Some(Err(Status::internal("badreq"))));
+                }
                 if self.j < self.n {
                     let m = message(self.k, self.j, self.payload);
                     self.j += 1;
@@ -407,14 +844,75 @@ impl tonic::server::ServerStreamingService<Vec<u8>> for StreamSvc {
     fn call(&mut self, request: Request<Vec<u8>>) -> Self::Future {
         let sh = self.0.clone();
         Box::pin(async move {
-            let k = call_id(request.get_ref());
+            let k = match call_id(&sh, request.get_ref()) {
+                Some(k) => k,
+                None => return Err(Status::internal("nok")),
+            };
             let (gate, status, payload, n) = {
                 let mut g = sh.lock().unwrap();
                 g.calls[k].started = true;
                 (g.calls[k].gate.clone(), g.calls[k].status, g.payload, g.calls[k].n)
             };
             gate.acquire().await.unwrap().forget();
-            let mut r = Response::new(GatedStream { k, j: 0, n, status, payload, done: false, wait: None, gate });
+            let mut r = Response::new(GatedStream { k, j: 0, n, status, payload, done: false, wait: None, gate, req: None });
+            r.metadata_mut().insert("x-k", k.to_string().parse().unwrap());
+            Ok(r)
+        })
+    }
+}
+
+struct CStreamSvc(Sh);
+impl tonic::server::ClientStreamingService<Vec<u8>> for CStreamSvc {
+    type Response = Vec<u8>;
+    type Future = BoxFut<Result<Response<Vec<u8>>, Status>>;
+    fn call(&mut self, request: Request<tonic::Streaming<Vec<u8>>>) -> Self::Future {
+        let sh = self.0.clone();
+        Box::pin(async move {
+            let k = match meta_k(&request) {
+                Some(k) if k < sh.lock().unwrap().calls.len() => k,
+                _ => return Err(Status::internal("nok")),
+            };
+            let (gate, status, payload, m) = {
+                let mut g = sh.lock().unwrap();
+                g.calls[k].started = true;
+                (g.calls[k].gate.clone(), g.calls[k].status, g.payload, g.calls[k].m)
+            };
+            let req_ok = drain_requests(request.into_inner(), k, m, payload).await;
+            gate.acquire().await.unwrap().forget();
+            if !req_ok {
+                return Err(Status::internal("badreq"));
+            }
+            if status == 0 {
+                let mut r = Response::new(message(k, 0, payload));
+                r.metadata_mut().insert("x-k", k.to_string().parse().unwrap());
+                Ok(r)
+            } else {
+                Err(status_of(k, status))
+            }
+        })
+    }
+}
+
+struct BidiSvc(Sh);
+impl tonic::server::StreamingService<Vec<u8>> for BidiSvc {
+    type Response = Vec<u8>;
+    type ResponseStream = GatedStream;
+    type Future = BoxFut<Result<Response<GatedStream>, Status>>;
+    fn call(&mut self, request: Request<tonic::Streaming<Vec<u8>>>) -> Self::Future {
+        let sh = self.0.clone();
+        Box::pin(async move {
+            let k = match meta_k(&request) {
+                Some(k) if k < sh.lock().unwrap().calls.len() => k,
+                _ => return Err(Status::internal("nok")),
+            };
+            let (gate, status, payload, n, m) = {
+                let mut g = sh.lock().unwrap();
+                g.calls[k].started = true;
+                (g.calls[k].gate.clone(), g.calls[k].status, g.payload, g.calls[k].n, g.calls[k].m)
+            };
+            gate.acquire().await.unwrap().forget();
+            let req = Some((request.into_inner(), m));
+            let mut r = Response::new(GatedStream { k, j: 0, n, status, payload, done: false, wait: None, gate, req });
             r.metadata_mut().insert("x-k", k.to_string().parse().unwrap());
             Ok(r)
         })
@@ -438,6 +936,14 @@ impl tower_service::Service<http::Request<tonic::body::Body>> for GateSvc {
             "/verif.Gate/Stream" => Box::pin(async move {
                 let mut grpc = tonic::server::Grpc::new(RawCodec);
                 Ok(grpc.server_streaming(StreamSvc(sh), req).await)
+            }),
+            "/verif.Gate/CStream" => Box::pin(async move {
+                let mut grpc = tonic::server::Grpc::new(RawCodec);
+                Ok(grpc.client_streaming(CStreamSvc(sh), req).await)
+            }),
+            "/verif.Gate/Bidi" => Box::pin(async move {
+                let mut grpc = tonic::server::Grpc::new(RawCodec);
+                Ok(grpc.streaming(BidiSvc(sh), req).await)
             }),
             _ => Box::pin(async move {
                 let mut response = http::Response::new(tonic::body::Body::default());
@@ -471,15 +977,98 @@ fn check_hdr(k: usize, md: &tonic::metadata::MetadataMap) -> bool {
     md.get("x-k").and_then(|v| v.to_str().ok()).map(|v| v == k.to_string()).unwrap_or(false)
 }
 
-async fn client_call(sh: Sh, ch: tonic::transport::Channel, k: usize) {
-    let (streaming, payload) = {
+struct ReqStream(mpsc::UnboundedReceiver<Vec<u8>>);
+
+impl futures_core::Stream for ReqStream {
+    type Item = Vec<u8>;
+    fn poll_next(mut self: Pin<&mut Self>, cx: &mut Context<'_>) -> Poll<Option<Vec<u8>>> {
+        self.0.poll_recv(cx)
+    }
+}
+
+fn record_unary_result(sh: &Sh, k: usize, payload: usize, r: Result<Response<Vec<u8>>, Status>) {
+    match r {
+        Ok(resp) => {
+            let good_hdr = check_hdr(k, resp.metadata());
+            let good = resp.get_ref() == &message(k, 0, payload);
+            {
+                let mut g = sh.lock().unwrap();
+                g.calls[k].hdr = Some(good_hdr);
+                if good {
+                    g.calls[k].msgs += 1;
+                } else {
+                    g.calls[k].bad = true;
+                }
+            }
+            finish(sh, k, "s0".into());
+        }
+        Err(st) => finish(sh, k, status_token(k, &st)),
+    }
+}
+
+async fn record_stream_result(sh: &Sh, k: usize, payload: usize, r: Result<Response<tonic::Streaming<Vec<u8>>>, Status>) {
+    match r {
+        Ok(resp) => {
+            let good_hdr = check_hdr(k, resp.metadata());
+            sh.lock().unwrap().calls[k].hdr = Some(good_hdr);
+            let mut s = resp.into_inner();
+            loop {
+                match s.message().await {
+                    Ok(Some(m)) => {
+                        let mut g = sh.lock().unwrap();
+                        let j = g.calls[k].msgs;
+                        if !g.calls[k].bad && m == message(k, j, payload) {
+                            g.calls[k].msgs += 1;
+                        } else {
+                            g.calls[k].bad = true;
+                        }
+                    }
+                    Ok(None) => {
+                        finish(sh, k, "s0".into());
+                        break;
+                    }
+                    Err(st) => {
+                        finish(sh, k, status_token(k, &st));
+                        break;
+                    }
+                }
+            }
+        }
+        Err(st) => finish(sh, k, status_token(k, &st)),
+    }
+}
+
+async fn client_call(sh: Sh, ch: tonic::transport::Channel, k: usize, rx: Option<mpsc::UnboundedReceiver<Vec<u8>>>) {
+    let (kind, payload) = {
         let g = sh.lock().unwrap();
-        (g.calls[k].streaming, g.payload)
+        (g.calls[k].kind, g.payload)
     };
+    let streaming = kind == Kind::SStream;
     let mut grpc = tonic::client::Grpc::new(ch);
     if let Err(e) = grpc.ready().await {
         let _ = e;
         finish(&sh, k, "s14!".into());
+        return;
+    }
+    if kind == Kind::CStream || kind == Kind::Bidi {
+        let (_keep, rx) = match rx {
+            Some(rx) => (None, rx),
+            None => {
+                let (tx, rx) = mpsc::unbounded_channel();
+                (Some(tx), rx)
+            }
+        };
+        let mut req = Request::new(ReqStream(rx));
+        req.metadata_mut().insert("x-k", k.to_string().parse().unwrap());
+        if kind == Kind::CStream {
+            let path = http::uri::PathAndQuery::from_static("/verif.Gate/CStream");
+            let r = grpc.client_streaming::<_, Vec<u8>, Vec<u8>, _>(req, path, RawCodec).await;
+            record_unary_result(&sh, k, payload, r);
+        } else {
+            let path = http::uri::PathAndQuery::from_static("/verif.Gate/Bidi");
+            let r = grpc.streaming::<_, Vec<u8>, Vec<u8>, _>(req, path, RawCodec).await;
+            record_stream_result(&sh, k, payload, r).await;
+        }
         return;
     }
     let mut body = (k as u32).to_be_bytes().to_vec();
@@ -488,58 +1077,30 @@ async fn client_call(sh: Sh, ch: tonic::transport::Channel, k: usize) {
     body.extend(std::iter::repeat(0xA5u8).take(payload));
     if !streaming {
         let path = http::uri::PathAndQuery::from_static("/verif.Gate/Unary");
-        match grpc.unary::<Vec<u8>, Vec<u8>, _>(Request::new(body), path, RawCodec).await {
-            Ok(resp) => {
-                let good_hdr = check_hdr(k, resp.metadata());
-                let good = resp.get_ref() == &message(k, 0, payload);
-                {
-                    let mut g = sh.lock().unwrap();
-                    g.calls[k].hdr = Some(good_hdr);
-                    if good {
-                        g.calls[k].msgs += 1;
-                    } else {
-                        g.calls[k].bad = true;
-                    }
-                }
-                finish(&sh, k, "s0".into());
-            }
-            Err(st) => finish(&sh, k, status_token(k, &st)),
-        }
+        let r = grpc.unary::<Vec<u8>, Vec<u8>, _>(Request::new(body), path, RawCodec).await;
+        record_unary_result(&sh, k, payload, r);
     } else {
         let path = http::uri::PathAndQuery::from_static("/verif.Gate/Stream");
-        match grpc.server_streaming::<Vec<u8>, Vec<u8>, _>(Request::new(body), path, RawCodec).await {
-            Ok(resp) => {
-                let good_hdr = check_hdr(k, resp.metadata());
-                sh.lock().unwrap().calls[k].hdr = Some(good_hdr);
-                let mut s = resp.into_inner();
-                loop {
-                    match s.message().await {
-                        Ok(Some(m)) => {
-                            let mut g = sh.lock().unwrap();
-                            let j = g.calls[k].msgs;
-                            if !g.calls[k].bad && m == message(k, j, payload) {
-                                g.calls[k].msgs += 1;
-                            } else {
-                                g.calls[k].bad = true;
-                            }
-                        }
-                        Ok(None) => {
-                            finish(&sh, k, "s0".into());
-                            break;
-                        }
-                        Err(st) => {
-                            finish(&sh, k, status_token(k, &st));
-                            break;
-                        }
-                    }
-                }
-            }
-            Err(st) => finish(&sh, k, status_token(k, &st)),
-        }
+        let r = grpc.server_streaming::<Vec<u8>, Vec<u8>, _>(Request::new(body), path, RawCodec).await;
+        record_stream_result(&sh, k, payload, r).await;
     }
 }
 
 // ---------------------------------------------------------------- scenario runner
+
+/// the open request side of a client-streaming / bidi call: (sender, messages sent, messages to send)
+type ReqTx = Option<(mpsc::UnboundedSender<Vec<u8>>, usize, usize)>;
+
+/// the client sends the next request message of call k; the last one closes the request stream
+fn send_req(slot: &mut ReqTx, k: usize, payload: usize) {
+    if let Some((tx, sent, m)) = slot {
+        let _ = tx.send(req_message(k, *sent, payload));
+        *sent += 1;
+        if *sent >= *m {
+            *slot = None;
+        }
+    }
+}
 
 async fn settle() {
     tokio::time::sleep(Duration::from_millis(1)).await;
@@ -556,87 +1117,312 @@ async fn after_step(y: Option<usize>) {
     }
 }
 
-async fn run(sc: Script) -> String {
-    let sh: Sh = Arc::new(Mutex::new(Shared { payload: sc.payload, ..Default::default() }));
-    let (inc_tx, inc_rx) = mpsc::unbounded_channel();
-    let mut inc_tx = Some(inc_tx);
-    let (sig_tx, sig_rx) = oneshot::channel::<()>();
-    let mut sig_tx = Some(sig_tx);
-    let (keep_tx, keep_rx) = oneshot::channel::<()>(); // keeps an unfired signal pending for ever
+const CA1: &str = include_str!("../certs/ca1.pem");
+const S1GOOD: &str = include_str!("../certs/s1good.pem");
+const S1GOOD_KEY: &str = include_str!("../certs/s1good.key.pem");
 
+fn tls_endpoint() -> Endpoint {
+    let cfg = tonic::transport::ClientTlsConfig::new()
+        .ca_certificate(tonic::transport::Certificate::from_pem(CA1))
+        .domain_name("good.test");
+    Endpoint::from_static("https://good.test").tls_config(cfg).expect("client tls config")
+}
+
+/// one client connection over a duplex pipe, with or without TLS
+async fn connect_duplex(cli: DuplexStream, tls: bool) -> Option<tonic::transport::Channel> {
+    let mut cli = Some(cli);
+    let connector = tower::service_fn(move |_: Uri| {
+        let c = cli.take();
+        async move {
+            match c {
+                Some(c) => Ok(hyper_util::rt::TokioIo::new(c)),
+                None => Err(std::io::Error::other("connection already used")),
+            }
+        }
+    });
+    let ep = if tls { tls_endpoint() } else { Endpoint::from_static("http://[::]:50051") };
+    ep.connect_with_connector(connector).await.ok()
+}
+
+/// the client side of connection c: a channel, none (the connection attempt failed), or an
+/// attempt that is still going on (TLS: the handshake needs the server to answer)
+enum Slot {
+    Now(Option<tonic::transport::Channel>),
+    Later(tokio::sync::watch::Receiver<Option<Option<tonic::transport::Channel>>>),
+}
+
+impl Slot {
+    fn is_live(&self) -> bool {
+        match self {
+            Slot::Now(c) => c.is_some(),
+            Slot::Later(rx) => !matches!(&*rx.borrow(), Some(None)),
+        }
+    }
+}
+
+fn new_router(sc: &Script, sh: &Sh) -> tonic::transport::server::Router {
     let mut builder = Server::builder();
+    if sc.tls {
+        let id = tonic::transport::Identity::from_pem(S1GOOD, S1GOOD_KEY);
+        builder = builder.tls_config(tonic::transport::ServerTlsConfig::new().identity(id)).expect("server tls config");
+    }
     if sc.age {
         builder = builder.max_connection_age(AGE);
     }
-    let router = builder.add_service(GateSvc { sh: sh.clone() });
-    let incoming = Incoming(inc_rx);
-    let shs = sh.clone();
-    let graceful = sc.graceful;
-    let sc_graceful = sc.graceful;
-    let serve_task = tokio::spawn(async move {
-        let r = if graceful {
-            router
-                .serve_with_incoming_shutdown(incoming, async move {
-                    if sig_rx.await.is_err() {
-                        let _ = keep_rx.await;
-                        std::future::pending::<()>().await;
-                    }
-                })
-                .await
-        } else {
-            drop(sig_rx);
-            drop(keep_rx);
-            router.serve_with_incoming(incoming).await
-        };
-        let mut g = shs.lock().unwrap();
-        let (st, open) = (g.step, g.open);
-        g.resolved = Some((st, open, r.is_ok()));
-    });
+    builder.add_service(GateSvc { sh: sh.clone() })
+}
 
-    let mut channels: Vec<Option<tonic::transport::Channel>> = Vec::new();
+/// the user's shutdown signal: fires when `sig_rx` gets its message; if the sender just goes
+/// away the signal stays pending for ever
+async fn signal_future(sig_rx: oneshot::Receiver<()>, keep_rx: oneshot::Receiver<()>) {
+    if sig_rx.await.is_err() {
+        let _ = keep_rx.await;
+        std::future::pending::<()>().await;
+    }
+}
+
+fn record_resolved(sh: &Sh, ok: bool) {
+    let mut g = sh.lock().unwrap();
+    let (st, open) = (g.step, g.open);
+    g.resolved = Some((st, open, ok));
+}
+
+async fn run(sc: Script) -> String {
+    let sh: Sh = Arc::new(Mutex::new(Shared { payload: sc.payload, ..Default::default() }));
+    let tcp = sc.transport == Transport::Tcp;
+    let graceful = sc.graceful;
+    let mut inc_tx = None;
+    let mut sig_tx;
+    let _keep_tx; // keeps an unfired signal pending for ever
+    let mut tcp_addr: Option<std::net::SocketAddr> = None;
+    let serve_task;
+    if !tcp {
+        let (itx, inc_rx) = mpsc::unbounded_channel();
+        inc_tx = Some(itx);
+        let (stx, sig_rx) = oneshot::channel::<()>();
+        let (ktx, keep_rx) = oneshot::channel::<()>();
+        sig_tx = Some(stx);
+        _keep_tx = ktx;
+        let router = new_router(&sc, &sh);
+        let incoming = Incoming(inc_rx);
+        let shs = sh.clone();
+        serve_task = tokio::spawn(async move {
+            let r = if graceful {
+                router.serve_with_incoming_shutdown(incoming, signal_future(sig_rx, keep_rx)).await
+            } else {
+                drop(sig_rx);
+                drop(keep_rx);
+                router.serve_with_incoming(incoming).await
+            };
+            record_resolved(&shs, r.is_ok());
+        });
+    } else {
+        // The TCP entry points bind the address themselves and do not tell which port they got:
+        // pick a free one, hand it over, and start again with another if somebody else took it in
+        // between (the serve future then fails at once with the bind error).
+        let mut attempt = 0;
+        loop {
+            let port = match free_port() {
+                Some(p) => p,
+                None => {
+                    // no local port free just now (many sockets in TIME_WAIT): wait a little
+                    attempt += 1;
+                    if attempt > 200 {
+                        return "bad-case".into();
+                    }
+                    std::thread::sleep(Duration::from_millis(20));
+                    continue;
+                }
+            };
+            let addr = std::net::SocketAddr::from(([127, 0, 0, 1], port));
+            let (stx, sig_rx) = oneshot::channel::<()>();
+            let (ktx, keep_rx) = oneshot::channel::<()>();
+            let router = new_router(&sc, &sh);
+            let shs = sh.clone();
+            let task = tokio::spawn(async move {
+                let r = if graceful {
+                    router.serve_with_shutdown(addr, signal_future(sig_rx, keep_rx)).await
+                } else {
+                    drop(sig_rx);
+                    drop(keep_rx);
+                    router.serve(addr).await
+                };
+                record_resolved(&shs, r.is_ok());
+            });
+            // the bind happens in the serve future's first poll
+            for _ in 0..4 {
+                tokio::task::yield_now().await;
+            }
+            if !task.is_finished() {
+                sig_tx = Some(stx);
+                _keep_tx = ktx;
+                tcp_addr = Some(addr);
+                serve_task = task;
+                break;
+            }
+            sh.lock().unwrap().resolved = None;
+            attempt += 1;
+            if attempt > 200 {
+                if std::env::var_os("VERIF_C13_TRACE").is_some() {
+                    eprintln!("c13: no port could be bound");
+                }
+                return "bad-case".into();
+            }
+        }
+    }
+    let mut exp = Expect { graceful_mode: graceful, age: sc.age, ..Default::default() };
+
+    let mut channels: Vec<Slot> = Vec::new();
+    // TLS: connection attempts in progress, silent clients (client end, result sender), and the
+    // client ends of connections that only have to stay open
+    let mut conn_tasks: Vec<Option<tokio::task::JoinHandle<()>>> = Vec::new();
+    type Hello = (DuplexStream, tokio::sync::watch::Sender<Option<Option<tonic::transport::Channel>>>);
+    let mut silent: Vec<Option<Hello>> = Vec::new();
+    let mut held: Vec<Option<DuplexStream>> = Vec::new();
     let mut call_tasks: Vec<(usize, tokio::task::JoinHandle<()>)> = Vec::new(); // (conn, task) by call index
+    let mut req_tx: Vec<ReqTx> = Vec::new(); // request side of call k, while it is still open
 
     let mut t = 0usize; // time = number of quiescent points passed
+    let vstart = tokio::time::Instant::now();
     for step in sc.steps.iter() {
         sh.lock().unwrap().step = t;
         match step.op.clone() {
             Op::Conn => {
-                let (cli, srv) = tokio::io::duplex(sc.buf);
                 let id = {
                     let mut g = sh.lock().unwrap();
                     g.conns.push(ConnRec::default());
                     g.conns.len() - 1
                 };
+                let gone = sh.lock().unwrap().resolved.is_some();
+                let r: Result<tonic::transport::Channel, ()> = if tcp && gone {
+                    // The listener went with the serve future.  Whoever owns that port now (another
+                    // scenario running in parallel may have been given it), it is not the server
+                    // under test: the connection counts as refused, without touching the network.
+                    Err(())
+                } else if let Some(addr) = tcp_addr {
+                    let mut used = false;
+                    let shc = sh.clone();
+                    with_ticks(Endpoint::from_static("http://127.0.0.1:50051")
+                        .connect_with_connector(tower::service_fn(move |_: Uri| {
+                            let first = !used;
+                            used = true;
+                            let shc = shc.clone();
+                            async move {
+                                if !first {
+                                    return Err(std::io::Error::other("connection already used"));
+                                }
+                                let mut tries = 0;
+                                let s = loop {
+                                    match tokio::net::TcpStream::connect(addr).await {
+                                        Ok(s) => break s,
+                                        // no local port free just now (sockets in TIME_WAIT)
+                                        Err(e) if e.kind() == std::io::ErrorKind::AddrNotAvailable && tries < 100 => {
+                                            tries += 1;
+                                            std::thread::sleep(Duration::from_millis(20));
+                                        }
+                                        Err(e) => return Err(e),
+                                    }
+                                };
+                                s.set_nodelay(true)?;
+                                Ok(hyper_util::rt::TokioIo::new(CliIo { inner: s, id, sh: shc, pending: Vec::new() }))
+                            }
+                        })))
+                        .await
+                        .map_err(|_| ())
+                } else {
+                    Err(())
+                };
+                conn_tasks.push(None);
+                held.push(None);
+                let slot = if tcp {
+                    Slot::Now(r.ok())
+                } else {
+                    let (cli, srv) = tokio::io::duplex(sc.buf);
+                    if let Some(tx) = &inc_tx {
+                        let _ = tx.send(Ok(SrvIo { inner: srv, id, sh: sh.clone() }));
+                    } else {
+                        drop(srv);
+                    }
+                    if sc.tls {
+                        // the TLS handshake needs the server's answer: connect in the background
+                        let (tx, rx) = tokio::sync::watch::channel(None);
+                        conn_tasks[id] = Some(tokio::spawn(async move {
+                            let ch = connect_duplex(cli, true).await;
+                            let _ = tx.send(Some(ch));
+                        }));
+                        Slot::Later(rx)
+                    } else {
+                        Slot::Now(connect_duplex(cli, false).await)
+                    }
+                };
+                silent.push(None);
+                let resolved = sh.lock().unwrap().resolved.is_some();
+                exp.conns.push(ExpConn {
+                    accept: slot.is_live() && !resolved && !(graceful && exp.sig),
+                    acc_at: exp.now,
+                    aged: false,
+                    dropped: false,
+                });
+                channels.push(slot);
+            }
+            Op::ConnStalled | Op::ConnBad => {
+                let id = {
+                    let mut g = sh.lock().unwrap();
+                    g.conns.push(ConnRec::default());
+                    g.conns.len() - 1
+                };
+                let (mut cli, srv) = tokio::io::duplex(sc.buf);
                 if let Some(tx) = &inc_tx {
                     let _ = tx.send(Ok(SrvIo { inner: srv, id, sh: sh.clone() }));
                 } else {
                     drop(srv);
                 }
-                let mut cli = Some(cli);
-                let r = Endpoint::from_static("http://[::]:50051")
-                    .connect_with_connector(tower::service_fn(move |_: Uri| {
-                        let c = cli.take();
-                        async move {
-                            match c {
-                                Some(c) => Ok(hyper_util::rt::TokioIo::new(c)),
-                                None => Err(std::io::Error::other("connection already used")),
-                            }
-                        }
-                    }))
-                    .await;
-                channels.push(r.ok());
+                exp.conns.push(ExpConn { accept: false, acc_at: 0, aged: false, dropped: false });
+                conn_tasks.push(None);
+                held.push(None);
+                if step.op == Op::ConnBad {
+                    // 18 bytes: fits the smallest duplex buffer, so this cannot block
+                    let _ = tokio::io::AsyncWriteExt::write_all(&mut cli, b"GET / HTTP/1.1\r\n\r\n").await;
+                    held[id] = Some(cli);
+                    silent.push(None);
+                    channels.push(Slot::Now(None));
+                } else {
+                    let (tx, rx) = tokio::sync::watch::channel(None);
+                    silent.push(Some((cli, tx)));
+                    channels.push(Slot::Later(rx));
+                }
             }
-            Op::Unary(c, s) | Op::Stream(c, _, s) => {
-                let (streaming, n) = match step.op {
-                    Op::Stream(_, n, _) => (true, n),
-                    _ => (false, if s == 0 { 1 } else { 0 }),
+            Op::Hello(c) => {
+                if let Some((cli, tx)) = silent[c].take() {
+                    conn_tasks[c] = Some(tokio::spawn(async move {
+                        let ch = connect_duplex(cli, true).await;
+                        let _ = tx.send(Some(ch));
+                    }));
+                }
+            }
+            Op::Unary(c, s) | Op::Stream(c, _, s) | Op::CStream(c, _, s) | Op::Bidi(c, _, _, s) => {
+                let (kind, n, m) = match step.op {
+                    Op::Stream(_, n, _) => (Kind::SStream, n, 0),
+                    Op::CStream(_, m, _) => (Kind::CStream, if s == 0 { 1 } else { 0 }, m),
+                    Op::Bidi(_, m, n, _) => (Kind::Bidi, n, m),
+                    _ => (Kind::Unary, if s == 0 { 1 } else { 0 }, 0),
+                };
+                // request side of client-streaming / bidi calls: fed by the `M` steps
+                let rx = if kind == Kind::CStream || kind == Kind::Bidi {
+                    let (tx, rx) = mpsc::unbounded_channel::<Vec<u8>>();
+                    req_tx.push(if m > 0 { Some((tx, 0usize, m)) } else { None });
+                    Some(rx)
+                } else {
+                    req_tx.push(None);
+                    None
                 };
                 let k = {
                     let mut g = sh.lock().unwrap();
                     g.calls.push(CallRec {
                         n,
+                        m,
                         status: s,
-                        streaming,
+                        kind,
                         gate: Arc::new(Semaphore::new(0)),
                         started: false,
                         hdr: None,
@@ -647,25 +1433,60 @@ async fn run(sc: Script) -> String {
                     });
                     g.calls.len() - 1
                 };
-                match channels[c].clone() {
-                    Some(ch) => {
-                        let h = tokio::spawn(client_call(sh.clone(), ch, k));
+                exp.calls.push(ExpCall {
+                    conn: c,
+                    start: channels[c].is_live() && exp.conns[c].accept && !exp.conns[c].dropped && !exp.conn_graceful(c),
+                    kind,
+                    n,
+                    phases: match kind {
+                        Kind::Unary | Kind::CStream => 1,
+                        Kind::SStream | Kind::Bidi => n + 2,
+                    },
+                    permits: 0,
+                    req_left: m,
+                    cancelled: false,
+                });
+                match &channels[c] {
+                    Slot::Now(Some(ch)) => {
+                        let h = tokio::spawn(client_call(sh.clone(), ch.clone(), k, rx));
                         call_tasks.push((c, h));
                     }
-                    None => {
+                    Slot::Now(None) => {
                         finish(&sh, k, "s14!".into());
                         call_tasks.push((c, tokio::spawn(async {})));
                     }
+                    Slot::Later(chan) => {
+                        // the call goes out as soon as the connection attempt has ended
+                        let mut chan = chan.clone();
+                        let shc = sh.clone();
+                        let h = tokio::spawn(async move {
+                            let ch = match chan.wait_for(|v| v.is_some()).await {
+                                Ok(v) => v.clone().flatten(),
+                                Err(_) => None,
+                            };
+                            match ch {
+                                Some(ch) => client_call(shc, ch, k, rx).await,
+                                None => finish(&shc, k, "s14!".into()),
+                            }
+                        });
+                        call_tasks.push((c, h));
+                    }
                 }
+            }
+            Op::ReqMsg(k) => {
+                send_req(&mut req_tx[k], k, sc.payload);
+                exp.calls[k].req_left = exp.calls[k].req_left.saturating_sub(1);
             }
             Op::Adv(k) => {
                 let gate = sh.lock().unwrap().calls[k].gate.clone();
                 gate.add_permits(1);
+                exp.calls[k].permits += 1;
             }
             Op::Sig => {
                 if let Some(tx) = sig_tx.take() {
                     let _ = tx.send(());
                 }
+                exp.sig = true;
             }
             Op::EndIncoming => {
                 inc_tx = None;
@@ -677,47 +1498,92 @@ async fn run(sc: Script) -> String {
                 }
             }
             Op::DropConn(c) => {
-                for (cc, h) in call_tasks.iter() {
+                for (k, (cc, h)) in call_tasks.iter().enumerate() {
                     if *cc == c {
                         h.abort();
+                        // an abandoned call's request stream ends too (hyper owns it, not the
+                        // aborted task): without this the stream - and the connection - stay up
+                        req_tx[k] = None;
                     }
                 }
-                channels[c] = None;
+                if let Some(h) = conn_tasks[c].take() {
+                    h.abort();
+                }
+                channels[c] = Slot::Now(None);
+                silent[c] = None;
+                held[c] = None;
+                exp.conns[c].dropped = true;
             }
             Op::Cancel(k) => {
                 call_tasks[k].1.abort();
+                req_tx[k] = None;
+                exp.calls[k].cancelled = true;
             }
-            Op::Age => {
-                tokio::time::sleep(AGE).await;
+            Op::Wait(secs) => {
+                tokio::time::sleep(Duration::from_secs(secs)).await;
+                exp.wait_passes(secs);
             }
         }
-        after_step(step.yields).await;
+        if tcp {
+            tcp_sync(&sh, &mut exp).await;
+        } else {
+            after_step(step.yields).await;
+        }
+        if std::env::var_os("VERIF_C13_TRACE").is_some() {
+            eprintln!("c13: step {} {:?} done at virtual {:?}", t, step.op, vstart.elapsed());
+        }
         if step.yields.is_none() {
             t += 1;
         }
     }
     let nsteps = t;
-    // drain: every handler runs freely
+    // drain: every client completes its request stream, every handler runs freely
     sh.lock().unwrap().step = nsteps;
+    for (k, slot) in req_tx.iter_mut().enumerate() {
+        while slot.is_some() {
+            send_req(slot, k, sc.payload);
+        }
+        exp.calls[k].req_left = 0;
+    }
     {
         let g = sh.lock().unwrap();
         for c in g.calls.iter() {
             c.gate.add_permits(1 << 20);
         }
     }
-    settle().await;
+    for c in exp.calls.iter_mut() {
+        c.permits += 1 << 20;
+    }
+    if tcp {
+        tcp_sync(&sh, &mut exp).await;
+    } else {
+        settle().await;
+    }
     // every client goes away
     sh.lock().unwrap().step = nsteps + 1;
     for (_, h) in call_tasks.iter() {
         h.abort();
     }
+    req_tx.clear();
+    for h in conn_tasks.iter().flatten() {
+        h.abort();
+    }
     channels.clear();
-    settle().await;
+    silent.clear();
+    held.clear();
+    for c in exp.conns.iter_mut() {
+        c.dropped = true;
+    }
+    if tcp {
+        tcp_sync(&sh, &mut exp).await;
+    } else {
+        settle().await;
+    }
     sh.lock().unwrap().step = nsteps + 2;
     serve_task.abort();
     drop(inc_tx);
     drop(sig_tx);
-    drop(keep_tx);
+    drop(_keep_tx);
     settle().await;
 
     let g = sh.lock().unwrap();
@@ -726,8 +1592,9 @@ async fn run(sc: Script) -> String {
     match g.resolved {
         Some((st, open, ok)) if st <= nsteps + 1 => {
             // without a shutdown signal nothing is claimed about connections still open at that
-            // instant (and the count depends on scheduling): not reported
-            let open = if sc_graceful { open.to_string() } else { "*".to_string() };
+            // instant (and the count depends on scheduling): not reported; over TCP the count is
+            // not observable
+            let open = if graceful && !tcp { open.to_string() } else { "*".to_string() };
             out.push(format!("R{}:{}:{}", st, open, if ok { "ok" } else { "err" }))
         }
         _ => out.push("R-:-:-".into()),
@@ -762,7 +1629,7 @@ pub fn execute(case: &str) -> String {
     };
     let rt = paused_rt();
     rt.block_on(async move {
-        match tokio::time::timeout(Duration::from_secs(1_000_000), run(sc)).await {
+        match tokio::time::timeout(Duration::from_secs(1_000_000_000), run(sc)).await {
             Ok(s) => s,
             Err(_) => "hang".into(),
         }
@@ -779,11 +1646,20 @@ const PAYLOADS_BIG: [usize; 8] = [16379, 16380, 16384, 20000, 65530, 65535, 6553
 const CODES: [i32; 4] = [0, 0, 5, 13];
 
 #[derive(Clone)]
+struct GCall {
+    /// handler phases needed / released so far
+    phases: usize,
+    released: usize,
+    /// request messages the client has to send / has sent (client-streaming and bidi)
+    req: usize,
+    req_sent: usize,
+}
+
+#[derive(Clone)]
 struct Gen {
     ops: Vec<String>,
     nconn: usize,
-    // per call: (conn, phases needed, phases released so far)
-    calls: Vec<(usize, usize, usize)>,
+    calls: Vec<GCall>,
 }
 
 impl Gen {
@@ -795,22 +1671,60 @@ impl Gen {
         self.nconn += 1;
         self.nconn - 1
     }
+    fn push_call(&mut self, phases: usize, req: usize) -> usize {
+        self.calls.push(GCall { phases, released: 0, req, req_sent: 0 });
+        self.calls.len() - 1
+    }
     fn unary(&mut self, c: usize, s: i32) -> usize {
         self.ops.push(format!("U{}:{}", c, s));
-        self.calls.push((c, 1, 0));
-        self.calls.len() - 1
+        self.push_call(1, 0)
     }
     fn stream(&mut self, c: usize, n: usize, s: i32) -> usize {
         self.ops.push(format!("S{}:{}:{}", c, n, s));
-        self.calls.push((c, n + 2, 0));
-        self.calls.len() - 1
+        self.push_call(n + 2, 0)
+    }
+    fn cstream(&mut self, c: usize, m: usize, s: i32) -> usize {
+        self.ops.push(format!("Q{}:{}:{}", c, m, s));
+        self.push_call(1, m)
+    }
+    fn bidi(&mut self, c: usize, m: usize, n: usize, s: i32) -> usize {
+        self.ops.push(format!("B{}:{}:{}:{}", c, m, n, s));
+        self.push_call(n + 2, m)
     }
     fn adv(&mut self, k: usize) {
         self.ops.push(format!("A{}", k));
-        self.calls[k].2 += 1;
+        self.calls[k].released += 1;
+    }
+    fn reqmsg(&mut self, k: usize) {
+        self.ops.push(format!("M{}", k));
+        self.calls[k].req_sent += 1;
+    }
+    /// a call of a random shape on connection c
+    fn any_call(&mut self, rng: &mut Rng, c: usize) -> usize {
+        let s = *rng.pick(&CODES);
+        let n = *rng.pick(&[0usize, 1, 2, 2, 3]);
+        let m = *rng.pick(&[0usize, 1, 1, 2, 3]);
+        match rng.below(6) {
+            0 | 1 => self.unary(c, s),
+            2 | 3 => self.stream(c, n, s),
+            4 => self.cstream(c, m, s),
+            _ => self.bidi(c, m, n.min(2), s),
+        }
+    }
+    /// one more step of call k: a handler phase or a request message, whichever is still owed
+    fn advance(&mut self, rng: &mut Rng, k: usize) {
+        let c = &self.calls[k];
+        let (can_a, can_m) = (c.released < c.phases, c.req_sent < c.req);
+        if can_m && (!can_a || rng.chance(1, 2)) {
+            self.reqmsg(k);
+        } else if can_a {
+            self.adv(k);
+        }
     }
     fn unfinished(&self) -> Vec<usize> {
-        (0..self.calls.len()).filter(|k| self.calls[*k].2 < self.calls[*k].1).collect()
+        (0..self.calls.len())
+            .filter(|k| self.calls[*k].released < self.calls[*k].phases || self.calls[*k].req_sent < self.calls[*k].req)
+            .collect()
     }
 }
 
@@ -848,19 +1762,13 @@ fn base_scenario(rng: &mut Rng, max_conn: usize, max_calls: usize, finish: bool)
             }
             1 if can_call => {
                 let c = rng.below(g.nconn as u64) as usize;
-                let s = *rng.pick(&CODES);
-                if rng.chance(1, 2) {
-                    g.unary(c, s);
-                } else {
-                    let n = *rng.pick(&[0usize, 1, 2, 2, 3]);
-                    g.stream(c, n, s);
-                }
+                g.any_call(rng, c);
                 issued += 1;
             }
             _ => {
                 if !unf.is_empty() {
                     let k = *rng.pick(&unf);
-                    g.adv(k);
+                    g.advance(rng, k);
                 }
             }
         }
@@ -883,7 +1791,7 @@ fn late_probe(nconn: usize) -> Vec<String> {
 
 /// mark some steps as non-quiescent (`~k`), never ones that need a quiescent state
 fn add_races(ops: &[String], rng: &mut Rng, density: u64) -> Vec<String> {
-    let needs_quiet = |t: &String| t.starts_with('D') || t.starts_with('X') || t == "T";
+    let needs_quiet = |t: &String| t.starts_with('D') || t.starts_with('X') || t.starts_with('W') || t == "T";
     let mut out = Vec::new();
     for (i, t) in ops.iter().enumerate() {
         let next_quiet = ops.get(i + 1).map(needs_quiet).unwrap_or(false);
@@ -921,6 +1829,65 @@ fn corpus() -> Vec<String> {
         "sc:corpus g b1024 p10 a0 C U0:0",
         "sc:corpus g b1024 p10 a0 C U0:0 D0 G",
         "sc:corpus g b1024 p10 a1 C U0:0 T C U0:0 U1:0 A0",
+        // client-streaming and bidi calls in flight at the signal; the request body still being sent
+        "sc:corpus g b1024 p10 a0 C Q0:2:0 M0 G M0 A0",
+        "sc:corpus g b1024 p10 a0 C Q0:2:0 G M0 M0 A0",
+        "sc:corpus g b1024 p10 a0 C Q0:2:5 M0 M0 G A0",
+        "sc:corpus g b1024 p10 a0 C Q0:0:0 G A0",
+        "sc:corpus g b1024 p10 a0 C Q0:1:0 A0 G M0",
+        "sc:corpus g b1024 p10 a0 C Q0:3:0 M0 G",
+        "sc:corpus g b1024 p10 a0 C B0:2:2:0 A0 M0 A0 G M0 A0 A0",
+        "sc:corpus g b1024 p10 a0 C B0:1:1:13 G A0 A0 A0 M0",
+        "sc:corpus g b1024 p10 a0 C B0:2:0:0 A0 A0 G M0 M0",
+        "sc:corpus g b1024 p10 a0 C B0:0:3:0 A0 A0 G A0 A0 A0",
+        "sc:corpus g b32 p70000 a0 C Q0:2:0 M0~0 G M0 A0",
+        "sc:corpus g b32 p70000 a0 C B0:2:1:0 M0~0 M0~0 G A0 A0 A0",
+        "sc:corpus g b64 p65536 a0 C U0:0~2 G A0",
+        "sc:corpus g b1024 p10 a0 C Q0:2:0 M0 X0 G",
+        "sc:corpus g b1024 p10 a0 C B0:2:1:0 A0 M0 D0 G",
+        "sc:corpus n b1024 p10 a0 C Q0:1:0 B0:1:1:0 M0 A1 E M1 A0 A1 A1",
+        // several calls on one connection, each in a different phase when the signal fires
+        "sc:corpus g b1024 p10 a0 C U0:0 S0:2:0 Q0:2:0 B0:1:1:0 A1 A1 M2 A3 G A0 A1 M2 A2 M3 A3 A1 A3",
+        "sc:corpus g b100 p300 a0 C S0:3:5 B0:2:2:0 Q0:1:13 U0:5 A0 A0 A1 M1 G M2 A2 A3 A0 A0 A0 M1 A1 A1 A1",
+        // the TCP entry points (serve_with_shutdown(addr, signal), serve(addr), TcpIncoming)
+        "sc:corpus t b0 p10 a0 C U0:0 G A0",
+        "sc:corpus t b0 p10 a0 C U0:0 A0 G",
+        "sc:corpus t b0 p10 a0 C S0:2:0 A0 G C U1:0 A0 A0 A0",
+        "sc:corpus t b0 p10 a0 C S0:2:5 A0 A0 G A0 A0",
+        "sc:corpus t b0 p10 a0 C C U0:0 U1:0 G A0 A1",
+        "sc:corpus t b0 p10 a0 C G U0:0",
+        "sc:corpus t b0 p10 a0 G C U0:0",
+        "sc:corpus t b0 p10 a0 G",
+        "sc:corpus t b0 p10 a0 C U0:0",
+        "sc:corpus t b0 p70000 a0 C B0:2:1:0 M0 G A0 A0 M0 A0",
+        "sc:corpus t b0 p65536 a0 C Q0:2:0 M0 G M0 A0",
+        "sc:corpus t b0 p10 a0 C U0:0 G W61 A0",
+        "sc:corpus t b0 p10 a1 C U0:0 T C U0:0 U1:0 A0",
+        "sc:corpus t b0 p10 a0 C C U0:0 Q1:2:0 M1 G D0 M1 A1 W61",
+        "sc:corpus t b0 p10 a0 C U0:0 S0:1:0 A1 G X0 A1 A1",
+        "sc:corpus u b0 p10 a0 C U0:0 G A0",
+        "sc:corpus u b0 p10 a0 C S0:1:0 A0 W7200 A0 A0 C U1:5 A1",
+        // the TLS accept path (ServerIoStream's handshake JoinSet)
+        "sc:corpus gs b1024 p10 a0 C U0:0 G A0",
+        "sc:corpus gs b1024 p10 a0 H G h0 U0:0",
+        "sc:corpus gs b1024 p10 a0 H h0 U0:0 G A0",
+        "sc:corpus gs b1024 p10 a0 Hb C U1:0 A0 G",
+        "sc:corpus gs b1024 p10 a0 Hb Hb C Hb C U2:0 U4:5 A0 A1 G",
+        "sc:corpus gs b1024 p10 a0 C S0:2:0 A0 H G h1 U1:0 A0 A0 A0",
+        "sc:corpus gs b1024 p10 a0 G C U0:0",
+        "sc:corpus gs b1024 p10 a0 H E h0 U0:0",
+        "sc:corpus gs b1024 p10 a0 H C U1:0 D0 A0 G",
+        "sc:corpus gs b24 p300 a0 C H Hb U0:0 Q0:2:0 M1 G h1 A0 M1 A1 U1:0",
+        "sc:corpus gs b1024 p10 a0 C U0:0 H G W61 A0",
+        "sc:corpus gs b1024 p10 a1 C H U0:0 T h1 U1:0 A0 A1 G",
+        // time passes (task: anything clock-dependent after the signal must get its chance)
+        "sc:corpus g b1024 p10 a0 C U0:0 G W61 A0",
+        "sc:corpus g b1024 p10 a0 C S0:2:0 A0 G T A0 A0 A0",
+        "sc:corpus g b1024 p10 a1 C U0:0 G W61 A0",
+        "sc:corpus g b1024 p10 a1 C W3599 U0:0 W1 C U0:0 U1:0 A0",
+        "sc:corpus g b1024 p10 a1 C W3599 C W1 U0:0 U1:0 A0 W3599 U1:0",
+        "sc:corpus g b1024 p10 a0 W7200 C U0:0 W61 G W61 A0 W61",
+        "sc:corpus n b1024 p10 a0 C U0:0 W7200 A0 E W61",
         "sc:corpus g b1024 p10 a0 Io C Ir U0:0 G",
         "sc:corpus g b1024 p10 a0 C S0:2:0 A0 X0 G",
         "sc:corpus g b32 p70000 a0 C S0:2:0 U0:0 A0 A0 G A1 A0 A0",
@@ -939,26 +1906,213 @@ fn corpus() -> Vec<String> {
     out
 }
 
-/// the signal at every phase boundary of every call: all insertion points of `G` (and `E`) into a
-/// scenario whose handler phases are spelled out one per step
-fn placements(out: &mut Vec<String>, rng: &mut Rng, g: &Gen, mode: &str, trig: &str, probe: bool, races: u64) {
+/// amounts of virtual time for the `W` step: below / above any plausible drain or idle timeout,
+/// and around max_connection_age (3600 s)
+const WAITS: [u64; 10] = [1, 29, 31, 61, 61, 600, 3599, 3600, 3601, 7200];
+
+fn wait_tok(rng: &mut Rng) -> String {
+    format!("W{}", rng.pick(&WAITS))
+}
+
+/// over TCP the virtual clock also ticks (1 ms at a time) while the script waits for the kernel,
+/// so amounts a second short of max_connection_age are left to the duplex variant
+fn tcp_wait_tok(rng: &mut Rng) -> String {
+    loop {
+        let w = *rng.pick(&WAITS);
+        if w != 3599 {
+            return format!("W{}", w);
+        }
+    }
+}
+
+/// "time passes" at up to `max` random places of a scenario (anywhere: before the first
+/// connection, between the phases of calls in flight, after the signal, at the very end)
+fn sprinkle_time(ops: &[String], rng: &mut Rng, max: u64, tcp: bool) -> Vec<String> {
+    let mut v = ops.to_vec();
+    for _ in 0..rng.range(1, max) {
+        let at = rng.range(0, v.len() as u64) as usize;
+        let t = if tcp { tcp_wait_tok(rng) } else { wait_tok(rng) };
+        v = insert_at(&v, at, &[t]);
+    }
+    v
+}
+
+/// the signal at every phase boundary of every call: all insertion points of `G` (and `E`, and a
+/// time step) into a scenario whose handler phases are spelled out one per step
+fn placements(out: &mut Vec<String>, rng: &mut Rng, g: &Gen, mode: &str, trig: &str, age: bool, probe: bool, races: u64) {
     let (buf, payload) = pick_sizes(rng, g.calls.len());
-    let age = trig == "T";
+    let timed = !trig.starts_with('W') && trig != "T" && rng.chance(1, 2);
     for at in 0..=g.ops.len() {
         let mut ops = insert_at(&g.ops, at, &[trig.to_string()]);
         if probe {
             // the late connection goes in somewhere after the trigger
             // (after the last base connection, so that connection indices stay as they are)
-            let last_c = ops.iter().rposition(|t| t == "C").map(|i| i + 1).unwrap_or(0);
+            let last_c = ops.iter().rposition(|t| t == "C" || t == "H" || t == "Hb").map(|i| i + 1).unwrap_or(0);
             let lo = (at + 1).max(last_c);
             let pos = rng.range(lo as u64, ops.len() as u64) as usize;
             ops = insert_at(&ops, pos, &late_probe(g.nconn));
         }
+        if timed {
+            ops = sprinkle_time(&ops, rng, 2, mode == "t");
+        }
         if races > 0 {
             ops = add_races(&ops, rng, races);
         }
-        let class = format!("place{}{}{}", trig, if mode == "n" { "-nosignal" } else { "" }, if races > 0 { "-race" } else { "" });
+        let tname = if trig.starts_with('W') { "W" } else { trig };
+        let class = format!("{}place{}{}{}{}", if mode == "t" { "tcp-" } else if mode == "gs" { "tls-" } else { "" }, tname, if mode == "n" { "-nosignal" } else { "" }, if races > 0 { "-race" } else { "" }, if timed { "-timed" } else { "" });
+        let buf = if mode == "t" { 0 } else { buf };
         out.push(format!("{} {}", header(&class, mode, buf, payload, age), ops.join(" ")));
+    }
+}
+
+/// several calls on ONE connection, of all four shapes, each advanced to a different phase
+/// (not started / headers sent / mid-stream / request half sent / answered), then the trigger,
+/// then everything finishes in a random order
+fn phases_scenario(rng: &mut Rng, ncalls: usize) -> (Gen, usize) {
+    let mut g = Gen::new();
+    let c = g.conn();
+    for i in 0..ncalls {
+        // make sure every shape occurs when there is room for it
+        let s = *rng.pick(&CODES);
+        match if ncalls >= 4 { i % 4 } else { rng.below(4) as usize } {
+            0 => g.unary(c, s),
+            1 => g.stream(c, *rng.pick(&[1usize, 2, 3]), s),
+            2 => g.cstream(c, *rng.pick(&[1usize, 2, 3]), s),
+            _ => g.bidi(c, *rng.pick(&[1usize, 2]), *rng.pick(&[1usize, 2]), s),
+        };
+    }
+    // each call gets a random amount of progress
+    for k in 0..ncalls {
+        let total = g.calls[k].phases + g.calls[k].req;
+        for _ in 0..rng.below(total as u64 + 1) {
+            g.advance(rng, k);
+        }
+    }
+    let at = g.ops.len();
+    // … and the rest after the trigger, interleaved
+    let mut guard = 0;
+    while guard < 200 {
+        guard += 1;
+        let unf = g.unfinished();
+        if unf.is_empty() {
+            break;
+        }
+        let k = *rng.pick(&unf);
+        g.advance(rng, k);
+    }
+    (g, at)
+}
+
+fn phases(out: &mut Vec<String>, rng: &mut Rng, n: usize) {
+    for i in 0..n {
+        let ncalls = rng.range(2, 5) as usize;
+        let (g, at) = phases_scenario(rng, ncalls);
+        let (buf, payload) = pick_sizes(rng, ncalls);
+        let trig = if i % 5 == 4 { "E" } else { "G" };
+        let mut ops = insert_at(&g.ops, at, &[trig.to_string()]);
+        if rng.chance(1, 3) {
+            ops = sprinkle_time(&ops, rng, 2, false);
+        }
+        let racy = rng.chance(1, 4);
+        if racy {
+            ops = add_races(&ops, rng, 2);
+        }
+        let class = format!("phases{}{}", trig, if racy { "-race" } else { "" });
+        out.push(format!("{} {}", header(&class, "g", buf, payload, false), ops.join(" ")));
+    }
+}
+
+/// the TLS accept path (mode gs): ordinary TLS clients, clients whose handshake is still in
+/// progress when the trigger comes (`H` … `h<c>`), clients whose handshake fails (`Hb`); the
+/// trigger (signal, or end of incoming) at every position
+fn tls_scenarios(out: &mut Vec<String>, rng: &mut Rng, n: usize) {
+    for i in 0..n {
+        let finish = rng.chance(3, 4);
+        let mut g = base_scenario(rng, 3, 3, finish);
+        // some connections get a silent or a non-TLS client
+        let mut c = 0usize;
+        let mut ops: Vec<String> = Vec::new();
+        let mut hellos: Vec<(usize, usize)> = Vec::new(); // (position of H, connection)
+        for t in g.ops.iter() {
+            if t == "C" {
+                match rng.below(8) {
+                    0 | 1 if c > 0 || rng.chance(1, 2) => {
+                        hellos.push((ops.len(), c));
+                        ops.push("H".into());
+                    }
+                    2 => ops.push("Hb".into()),
+                    _ => ops.push("C".into()),
+                }
+                c += 1;
+            } else {
+                ops.push(t.clone());
+            }
+        }
+        // most silent clients speak up later, somewhere
+        for (pos, c) in hellos.iter().rev() {
+            if rng.chance(3, 4) {
+                let at = rng.range(*pos as u64 + 1, ops.len() as u64) as usize;
+                ops = insert_at(&ops, at, &[format!("h{}", c)]);
+            }
+        }
+        g.ops = ops;
+        let trig = if i % 4 == 3 { "E" } else { "G" };
+        placements(out, rng, &g, "gs", trig, false, true, 0);
+    }
+}
+
+/// the TCP entry points: `Router::serve_with_shutdown(addr, signal)` (mode t) and
+/// `Router::serve(addr)` (mode u) over loopback TCP - the signal at every phase boundary of small
+/// scenarios, a late connection, time passing, clients leaving
+fn tcp_scenarios(out: &mut Vec<String>, rng: &mut Rng, n: usize) {
+    for i in 0..n {
+        let finish = rng.chance(3, 4);
+        let g = base_scenario(rng, 2, 3, finish);
+        match i % 6 {
+            0 | 1 | 2 => placements(out, rng, &g, "t", "G", false, true, 0),
+            3 => {
+                // the signal somewhere, time passing at every position
+                let mut g2 = g.clone();
+                let at = rng.range(0, g2.ops.len() as u64) as usize;
+                g2.ops = insert_at(&g2.ops, at, &["G".to_string()]);
+                let w = tcp_wait_tok(rng);
+                let age = rng.chance(1, 3);
+                placements(out, rng, &g2, "t", &w, age, false, 0)
+            }
+            4 => placements(out, rng, &g, "t", "T", true, false, 0),
+            _ => {
+                // clients that leave or cancel, repeated signals, no signal at all
+                for _ in 0..6 {
+                    let mode = if rng.chance(1, 6) { "u" } else { "t" };
+                    let age = rng.chance(1, 4);
+                    let mut ops = g.ops.clone();
+                    for _ in 0..rng.range(1, 4) {
+                        let at = rng.range(0, ops.len() as u64) as usize;
+                        let nc = ops[..at].iter().filter(|t| t.as_str() == "C").count();
+                        let nk = ops[..at].iter().filter(|t| ["U", "S", "Q", "B"].iter().any(|p| t.starts_with(p))).count();
+                        let tok: Option<String> = match rng.below(8) {
+                            0 | 1 | 2 => Some("G".into()),
+                            3 if nc > 0 => Some(format!("D{}", rng.below(nc as u64))),
+                            4 if nk > 0 => Some(format!("X{}", rng.below(nk as u64))),
+                            5 => Some(if rng.chance(1, 3) { "T".into() } else { tcp_wait_tok(rng) }),
+                            6 if nk > 0 => Some(format!("A{}", rng.below(nk as u64))),
+                            7 if nk > 0 => Some(format!("M{}", rng.below(nk as u64))),
+                            _ => None,
+                        };
+                        if let Some(t) = tok {
+                            ops = insert_at(&ops, at, &[t]);
+                        }
+                    }
+                    if rng.chance(1, 3) {
+                        let nc = ops.iter().filter(|t| t.as_str() == "C").count();
+                        ops.extend(late_probe(nc));
+                    }
+                    let (_, payload) = pick_sizes(rng, g.calls.len());
+                    let class = format!("tcp-disturbed{}", if mode == "u" { "-nosignal" } else { "" });
+                    out.push(format!("{} {}", header(&class, mode, 0, payload, age), ops.join(" ")));
+                }
+            }
+        }
     }
 }
 
@@ -966,23 +2120,34 @@ fn structured(out: &mut Vec<String>, rng: &mut Rng, n: usize, max_conn: usize, m
     for i in 0..n {
         let finish = rng.chance(3, 4);
         let g = base_scenario(rng, max_conn, max_calls, finish);
-        match i % 10 {
+        match i % 12 {
             // max_connection_age elapsing at every phase boundary (then the signal at the end)
-            8 => placements(out, rng, &g, "g", "T", false, 0),
+            8 => placements(out, rng, &g, "g", "T", true, false, 0),
             9 => {
                 let mut g2 = g.clone();
                 g2.ops.push("G".into());
-                placements(out, rng, &g2, "g", "T", false, 0)
+                placements(out, rng, &g2, "g", "T", true, false, 0)
             }
-            0 | 1 => placements(out, rng, &g, "g", "G", true, 0),
-            2 => placements(out, rng, &g, "g", "G", false, 0),
+            // time passing at every phase boundary of a scenario that has the signal (or the end
+            // of incoming) somewhere in it; max_connection_age configured or not
+            10 | 11 => {
+                let mut g2 = g.clone();
+                let at = rng.range(0, g2.ops.len() as u64) as usize;
+                let trig = if rng.chance(1, 5) { "E" } else { "G" };
+                g2.ops = insert_at(&g2.ops, at, &[trig.to_string()]);
+                let w = if rng.chance(1, 3) { "T".to_string() } else { wait_tok(rng) };
+                let age = rng.chance(1, 3);
+                placements(out, rng, &g2, "g", &w, age, false, 0)
+            }
+            0 | 1 => placements(out, rng, &g, "g", "G", false, true, 0),
+            2 => placements(out, rng, &g, "g", "G", false, false, 0),
             3 => {
                 let probe = rng.chance(1, 2);
-                placements(out, rng, &g, "g", "E", probe, 0)
+                placements(out, rng, &g, "g", "E", false, probe, 0)
             }
-            4 => placements(out, rng, &g, "n", "E", false, 0),
-            5 | 6 => placements(out, rng, &g, "g", "G", true, 3),
-            _ => placements(out, rng, &g, "g", "E", true, 2),
+            4 => placements(out, rng, &g, "n", "E", false, false, 0),
+            5 | 6 => placements(out, rng, &g, "g", "G", false, true, 3),
+            _ => placements(out, rng, &g, "g", "E", false, true, 2),
         }
     }
 }
@@ -1000,13 +2165,14 @@ fn disturbed(out: &mut Vec<String>, rng: &mut Rng, n: usize, max_conn: usize, ma
             let at = rng.range(0, ops.len() as u64) as usize;
             // how many connections / calls exist before position `at`
             let nc = ops[..at].iter().filter(|t| t.as_str() == "C").count();
-            let nk = ops[..at].iter().filter(|t| t.starts_with('U') || t.starts_with('S')).count();
-            let tok: Option<String> = match rng.below(10) {
+            let nk = ops[..at].iter().filter(|t| ["U", "S", "Q", "B"].iter().any(|p| t.starts_with(p))).count();
+            let tok: Option<String> = match rng.below(11) {
+                10 if nk > 0 => Some(format!("M{}", rng.below(nk as u64))),
                 0 | 1 => Some("G".into()),
                 2 => Some("E".into()),
                 3 if nc > 0 => Some(format!("D{}", rng.below(nc as u64))),
                 4 if nk > 0 => Some(format!("X{}", rng.below(nk as u64))),
-                5 if age => Some("T".into()),
+                5 => Some(if rng.chance(1, 3) { "T".into() } else { wait_tok(rng) }),
                 6 => Some(if rng.chance(1, 2) { "Ir".into() } else { "Io".into() }),
                 7 if nk > 0 => Some(format!("A{}", rng.below(nk as u64))),
                 8 => Some("G".into()),
@@ -1034,7 +2200,7 @@ fn disturbed(out: &mut Vec<String>, rng: &mut Rng, n: usize, max_conn: usize, ma
 /// thorough tier: every scenario up to a length bound over a small alphabet (one connection
 /// pre-offered or not, two calls at most)
 fn exhaustive(out: &mut Vec<String>, max_len: usize) {
-    let alphabet = ["C", "U", "S", "A0", "A1", "G", "E", "D0", "X0"];
+    let alphabet = ["C", "U", "S", "Q", "B", "A0", "A1", "M0", "M1", "G", "E", "D0", "X0", "W61"];
     fn rec(out: &mut Vec<String>, alphabet: &[&str], cur: &mut Vec<String>, nconn: usize, ncall: usize, left: usize) {
         if !cur.is_empty() {
             out.push(format!("sc:exhaustive g b1024 p10 a0 {}", cur.join(" ")));
@@ -1047,9 +2213,13 @@ fn exhaustive(out: &mut Vec<String>, max_len: usize) {
                 "C" if nconn < 2 => ("C".to_string(), nconn + 1, ncall),
                 "U" if nconn > 0 && ncall < 2 => (format!("U{}:0", nconn - 1), nconn, ncall + 1),
                 "S" if nconn > 0 && ncall < 2 => (format!("S{}:1:5", nconn - 1), nconn, ncall + 1),
+                "Q" if nconn > 0 && ncall < 2 => (format!("Q{}:1:0", nconn - 1), nconn, ncall + 1),
+                "B" if nconn > 0 && ncall < 2 => (format!("B{}:1:0:0", nconn - 1), nconn, ncall + 1),
                 "A0" if ncall > 0 => ("A0".to_string(), nconn, ncall),
                 "A1" if ncall > 1 => ("A1".to_string(), nconn, ncall),
-                "G" | "E" => (a.to_string(), nconn, ncall),
+                "M0" if ncall > 0 && cur.iter().any(|t| t.starts_with('Q') || t.starts_with('B')) => ("M0".to_string(), nconn, ncall),
+                "M1" if ncall > 1 && cur.iter().any(|t| t.starts_with('Q') || t.starts_with('B')) => ("M1".to_string(), nconn, ncall),
+                "G" | "E" | "W61" => (a.to_string(), nconn, ncall),
                 "D0" if nconn > 0 => ("D0".to_string(), nconn, ncall),
                 "X0" if ncall > 0 => ("X0".to_string(), nconn, ncall),
                 _ => continue,
@@ -1068,7 +2238,7 @@ fn racy_variants(out: &mut Vec<String>, rng: &mut Rng, cases: &[String]) {
     for c in cases {
         let toks: Vec<&str> = c.split(' ').collect();
         let ops: Vec<String> = toks[5..].iter().map(|t| t.to_string()).collect();
-        if ops.iter().any(|t| t.starts_with('D') || t.starts_with('X')) {
+        if ops.iter().any(|t| t.starts_with('D') || t.starts_with('X') || t.starts_with('W') || t == "T") {
             continue;
         }
         let all0: Vec<String> = ops.iter().map(|t| format!("{}~0", t)).collect();
@@ -1079,11 +2249,36 @@ fn racy_variants(out: &mut Vec<String>, rng: &mut Rng, cases: &[String]) {
     }
 }
 
+/// spread the TCP cases evenly over the list (the runner shards the list in contiguous blocks,
+/// and a TCP case can cost real time when the server under test misbehaves)
+fn interleave(base: Vec<String>, extra: Vec<String>) -> Vec<String> {
+    if extra.is_empty() {
+        return base;
+    }
+    let every = (base.len() / extra.len()).max(1);
+    let mut out = Vec::with_capacity(base.len() + extra.len());
+    let mut it = extra.into_iter();
+    for (i, c) in base.into_iter().enumerate() {
+        if i % every == 0 {
+            if let Some(e) = it.next() {
+                out.push(e);
+            }
+        }
+        out.push(c);
+    }
+    out.extend(it);
+    out
+}
+
 pub fn generate(tier: &str, rng: &mut Rng) -> Vec<String> {
     let thorough = tier == "thorough";
+    let mut tcp = Vec::new();
     let mut out = corpus();
     if thorough {
         structured(&mut out, rng, 10000, 4, 6);
+        phases(&mut out, rng, 20000);
+        tcp_scenarios(&mut tcp, rng, 400);
+        tls_scenarios(&mut out, rng, 1500);
         disturbed(&mut out, rng, 90000, 4, 6);
         exhaustive(&mut out, 6);
         // every scenario up to length 5 again, with every step / random steps non-quiescent
@@ -1092,11 +2287,14 @@ pub fn generate(tier: &str, rng: &mut Rng) -> Vec<String> {
         racy_variants(&mut out, rng, &ex);
     } else {
         structured(&mut out, rng, 160, 3, 4);
+        phases(&mut out, rng, 300);
+        tcp_scenarios(&mut tcp, rng, 24);
+        tls_scenarios(&mut out, rng, 30);
         disturbed(&mut out, rng, 800, 3, 4);
         exhaustive(&mut out, 4);
         let mut ex = Vec::new();
         exhaustive(&mut ex, 3);
         racy_variants(&mut out, rng, &ex);
     }
-    out
+    interleave(out, tcp)
 }
